@@ -285,6 +285,7 @@ func checkC14(p *Prog, res *Result, tier string) {
 	res.rule("C14-R4", "Create / Update return nil only after Commit returned nil", 2)
 	res.rule("C14-R5", "adapters evaluate conditions atomically with the write (C11-R1/R2)", 15)
 	res.rule("C14-R7", "the record bytes handed to the engine (and remembered as last observed) are not a window into a reusable buffer", 2)
+	res.rule("C14-R8", "the lock record is written without an engine TTL (C17-R5): on engines that expire keys themselves an accepted record would vanish inside its lease and a standby's create would succeed", 2)
 	res.rule("C14-R6", "the lock's Get / Create / Update are driven by the elector only: repository code calls none of them (a Get from elsewhere replaces the bytes the pending round's compare-and-swap expects)", 1)
 	res.Stats["roles"] = map[string]string{"lock": e.lockT.Obj().Name(), "key": e.keyF.Name(), "lastObserved": e.lastF.Name(), "timestamp": e.tsoF.Name(), "observer": funcName(e.observer)}
 
@@ -481,6 +482,12 @@ func checkC14(p *Prog, res *Result, tier string) {
 		if (o.Rule == "C11-R1" && (strings.Contains(o.Construct, "CAS") || strings.Contains(o.Construct, "PutIfNotExist"))) ||
 			(o.Rule == "C11-R2" && (strings.Contains(o.Construct, "Commit") || strings.Contains(o.Construct, "memkv") || strings.Contains(o.Construct, "election"))) {
 			res.add("C14-R5", o.Rule+" "+o.Construct, o.Status, o.Pos, o.Detail)
+		}
+	}
+	// R8: the lock record is written without an engine TTL (C17-R5)
+	for _, o := range p.subResult("C17", tier).Obls {
+		if o.Rule == "C17-R5" && strings.Contains(o.Construct, "TTL operand") && strings.Contains(o.Construct, "/election.") {
+			res.add("C14-R8", o.Rule+" "+o.Construct, o.Status, o.Pos, o.Detail)
 		}
 	}
 }
